@@ -520,15 +520,43 @@ def check_case(ctx: Ctx, drv: Driver, text, opts, feats, seen_sig):
             ctx.violate(sig, msg, {"pdb": text, "options": opts})
 
 
+def big_case(ctx: Ctx, seen_sig):
+    """one structure with more than 9 999 atoms and waters at the end (tests/data/1AFS.pdb): output serial
+    numbers reach five digits, where fixed-column records have no blank between HETATM and the serial"""
+    p = G.DATA / "1AFS.pdb"
+    if not p.exists():
+        ctx.count("big-structure", "1AFS.pdb not available")
+        return
+    text = p.read_text()
+    for opts in (["--ff=AMBER", "--nodebump", "--noopt", "--whitespace"], ["--ff=PARSE", "--nodebump", "--noopt", "--keep-chain"]):
+        r = G.run_pipeline(text, opts)
+        ctx.evaluations += 1
+        ctx.count("big-structure", r.status)
+        ctx.distinct.add(("big", tuple(opts[3:])))
+        if r.status != "ok":
+            continue
+        missed = {id(a) for a in (r.missed or [])}
+        found = sum(1 for res in r.biomolecule.residues for a in res.atoms if id(a) not in missed)
+        lines = [l for l in (r.pqr or "").splitlines() if l.startswith(("ATOM", "HETATM"))]
+        ctx.count("big-structure-atoms", "10000+" if found >= 10000 else "<10000")
+        if len(lines) != found:
+            sig = {"kind": "unreported", "written": "fewer" if len(lines) < found else "more", "size": "10000+"}
+            k = tuple(sorted(sig.items()))
+            if k not in seen_sig:
+                seen_sig.add(k)
+                ctx.violate(sig, f"1AFS {opts}: {found} atoms have parameters but the PQR has {len(lines)} atom lines ({len(missed)} reported missing)", {"pdb": text, "options": opts})
+
+
 def run(ctx: Ctx):
     G.quiet()
     rng = ctx.rng
     drv = Driver()
     ctx.extra["rule"] = (
-        "the C04 case stream (every residue type forced at every chain position, packed waters, missing side-chain atoms, disulfide pairs, option modes incl. PROPKA states, --assign-only / --clean on hydrogenated input) and the C01 stream "
+        "one structure with more than 9 999 atoms (1AFS, --whitespace / --keep-chain); the C04 case stream (every residue type forced at every chain position, packed waters, missing side-chain atoms, disulfide pairs, option modes incl. PROPKA states, --assign-only / --clean on hydrogenated input) and the C01 stream "
         "(pre-named protonation states, two chains, neutral termini), plus free waters, an unknown extra atom, --drop-water; every logged method call of the optimisation objects is an evaluation; a case is (kind, mode, target, position)"
     )
     seen_sig = set()
+    big_case(ctx, seen_sig)
     n = ctx.scale(70, 2500)
     for ci in range(n):
         force = G.AA3[ci % len(G.AA3)] if ci % 2 == 0 else None
